@@ -204,6 +204,30 @@ def run(ctx):
                     ctx.case(key=('diff', row['cores'], a1, nn), nontrivial=True)
     if mirror_bad:
         raise tlc.TlcError('numpy chebval / chebder mirror disagrees with TLC on %d cases' % mirror_bad)
+    # --- "outside the box" is exact: a point beyond a bound by any representable amount (one ulp, 1e-17, 1e-40 next to a bound
+    #     at 0) receives the fill value, in the TT and in the dense routine alike
+    for t in range(6 if quick else 30):
+        d = 2
+        n = [3, 4]
+        A = teneva.rand(n, 2, seed=t)
+        Cd = F.dense(A)
+        for (a1, b1) in ((0., 1.), (-1., 0.), (0., 0.25), (-0.125, 0.), (0.3, 0.7), (-1., 1.)):
+            a_, b_ = np.array([a1, a1]), np.array([b1, b1])
+            mid = 0.5 * (a1 + b1)
+            up = (lambda v: 1e-90 if v == 0. else np.nextafter(v, np.inf))       # (the routines use an absolute guard of 1e-99)
+            dn = (lambda v: -1e-90 if v == 0. else np.nextafter(v, -np.inf))
+            outs = [up(b1), dn(a1), (0.3 - 3 * 0.1) if a1 == 0. else dn(a1), 1e-40 if b1 == 0. else up(b1), -1e-17 if a1 == 0. else dn(a1), b1 + 1e-3, a1 - 1e-3]
+            Xo = np.array([[o_, mid] for o_ in outs] + [[mid, o_] for o_ in outs] + [[a1, b1], [mid, mid]])
+            inside = np.array([(x_ >= a_).all() and (x_ <= b_).all() for x_ in Xo])
+            for z in (-7.5, 0.):
+                yt = np.asarray(teneva.func_get(Xo, A, a_, b_, z=z))
+                yd = np.asarray(teneva.func_get_full(Xo, Cd.copy(), a_, b_, z=z))
+                ctx.case(key=('outside-exact', a1, b1, z, t), nontrivial=True)
+                okx = np.all(yt[~inside] == z) and np.all(yd[~inside] == z) and dev(yt[inside], yd[inside]) <= 1e-9 * (1 + np.abs(Cd).sum())
+                if z != 0.:
+                    okx = okx and np.all(yt[inside] != z) and np.all(yd[inside] != z)
+                ctx.check(bool(okx), 'func_get:fill', 'box [%g, %g]: points outside by an ulp / 1e-17 / 1e-40 do not all receive the fill value %g (TT %s, dense %s)'
+                          % (a1, b1, z, np.array2string(yt[~inside][:6], precision=3), np.array2string(yd[~inside][:6], precision=3)))
     # --- one step beyond the tabulated grids: 17..65 nodes per mode, polynomial of degree n_k - 1 with coefficients of
     #     decaying size (values ~1): coefficients -> values on the grid -> coefficients, evaluation at random points, integral
     for t in range(4 if quick else 30):
